@@ -298,6 +298,7 @@ func runC11(c *Ctx) {
 	c13UntrustedNames(c)
 	c11ArchiveLastWins(c)
 	c11RootsApplied(c)
+	c10c11TargetPaths(c)
 	c11BootstrapLenient(c)
 
 	// ---- (9) shared rules on the code this property runs through: the image-level --path/--exclude-path filter must
